@@ -162,6 +162,22 @@ def check_case(case):
             ys = sorted(set([0, 1, ny // 2, ny - 2, ny - 1] + list(range(0, ny, st))) & set(range(ny)))
             pix = list(itertools.product(xs, ys))
         check_pixels(r, det, o, nx, ny, pix, img, t, tag, full=True)
+        # argument kinds and reuse: the same pixel as list, tuple, int array, float array; a float array passed twice
+        for x, y in pix[:: max(1, len(pix) // 5)]:
+            (ei, ej), _ = expected_index(o, nx, ny, x, y)
+            for kn, arg in (("list", [x, y]), ("tuple", (x, y)), ("int64", np.array([x, y], dtype=np.int64)), ("float64", np.array([x, y], float)), ("float32", np.array([x, y], dtype=np.float32))):
+                k2 = "%s:px%d,%d:arg=%s" % (tag, x, y, kn)
+                snap = np.array(arg, float).copy()
+                for rep in (1, 2):
+                    d = det.xy_to_detyz(arg, *o, dety_size=ny, detz_size=nx)
+                    r.require(float(d[0]) == ei and float(d[1]) == ej, k2 + ":xy_to_detyz:call%d" % rep, "xy_to_detyz on a %s argument (call %d with the same object)" % (kn, rep), [ei, ej], [float(d[0]), float(d[1])])
+                r.require(bool(np.array_equal(np.array(arg, float), snap)), k2 + ":xy-arg-unchanged", "xy_to_detyz leaves its argument as it was")
+                q = np.array([ei, ej], dtype=np.asarray(arg).dtype) if isinstance(arg, np.ndarray) else type(arg)([ei, ej])
+                qsnap = np.array(q, float).copy()
+                for rep in (1, 2):
+                    b = det.detyz_to_xy(q, *o, dety_size=ny, detz_size=nx)
+                    r.require(float(b[0]) == x and float(b[1]) == y, k2 + ":detyz_to_xy:call%d" % rep, "detyz_to_xy on a %s argument (call %d with the same object)" % (kn, rep), [x, y], [float(b[0]), float(b[1])])
+                r.require(bool(np.array_equal(np.array(q, float), qsnap)), k2 + ":detyz-arg-unchanged", "detyz_to_xy leaves its argument as it was")
         r.states = len(pix)
         r.transitions = 4 * len(pix)
         if nx != ny or o != (1, 0, 0, 1):
@@ -188,6 +204,15 @@ def check_case(case):
                 p3 = det.eta_and_radpix_to_detyz(e2, r2, c[0], c[1])
                 r.check("pos-rt", float(np.max(np.abs(np.array(p3, float) - np.array(p, float)))) / sc, 1e-6, key + ":pos-rt", "position restored", p, p3)
                 r.nontrivial.add("eta=%r,r=%r" % (eta, rad))
+                # argument kinds for integral eta: Python int and every numpy integer / float width
+                if float(eta).is_integer() and rad == 1400.25:
+                    for kn, ev in (("int", int(eta)), ("int8", np.int8(int(eta) % 120)), ("int16", np.int16(int(eta))), ("uint16", np.uint16(int(eta))), ("int32", np.int32(int(eta))),
+                                   ("int64", np.int64(int(eta))), ("float32", np.float32(eta))):
+                        ef = float(ev)
+                        pk = det.eta_and_radpix_to_detyz(ev, rad, c[0], c[1])
+                        refk = np.array([c[0] - rad * math.sin(math.radians(ef)), c[1] + rad * math.cos(math.radians(ef))])
+                        r.check("eta-argkind", float(np.max(np.abs(np.array(pk, float) - refk))) / sc, 1e-6 if kn == "float32" else 1e-12, key + ":arg=" + kn,
+                                "eta/radius to position for a %s eta" % kn, refk, pk)
         # back from a grid of pixel positions with radius >= 1
         n = 0
         for dy in (-3, -1, -0.5, 0, 0.5, 1, 2.5, 700):
